@@ -131,4 +131,5 @@ Definition run_C01 (suite : str) (args : list str) : option str :=
   else if streqb suite (bs "codec.encode") then Some (run_encode args)
   else if streqb suite (bs "codec.source") then Some (run_source args)
   else if streqb suite (bs "codec.tags") then Some (run_tags args)
+  else if streqb suite (bs "codec.tags.nilrecv") then Some (run_tags args)
   else None.
